@@ -189,7 +189,10 @@ func (e *Pentry[K, V]) entry() *Entry[K, V] {
 	}
 	en.weight.Store(e.Weight)
 	en.expire.Store(e.Expire)
-	en.flag = e.Flag
+	// the saved flags describe the entry's place in the saving cache (its region,
+	// "the secondary cache holds this value"): the region flag is set again by the
+	// list the entry is pushed to, and the receiving cache's secondary cache has
+	// never seen the value, so the entry must be written there when it is evicted
 	en.policyWeight = e.PolicyWeight
 	return en
 }
